@@ -54,6 +54,9 @@ package wallet
 //@   method Equal
 //@     requires recv != nil
 //@     ensures result == addrEqual(recv, arg0)
+//@   method BackendID
+//@     requires recv != nil
+//@     ensures result == addrBackend(recv)
 //@ end
 //@ interface Account
 //@   method Address
@@ -118,3 +121,9 @@ package wallet
 //@   loop 2
 //@     modifies (*sigs)[*]
 //@     invariant 0 <= maskIdx && maskIdx < len(mask) && 0 <= sigIdx && 0 <= bitIdx
+
+//@ func (SigDec).Decode
+//@   requires r != nil && s.Sig != nil
+//@   modifies *
+
+//@ ghost func addrBackend(a Address) BackendID
